@@ -87,10 +87,13 @@ static void vh_rp_check(jout *out, const secp256k1_pedersen_commitment *c, const
             vh_rp_out_u64(out, "rmin", mn); vh_rp_out_u64(out, "rmax", mx);
             jo_int(out, "rguard", VH_RP_MOUT[mlen_in <= 4096 ? mlen_in : 4096] == 0xAA);   /* nothing written behind the caller's capacity */
         }
+        /* the same rewind with no output requested ("is this output mine?"): same verdict */
+        mn = mx = 0; jo_int(out, "rret0", secp256k1_rangeproof_rewind(CTX, NULL, NULL, NULL, NULL, nonce, &mn, &mx, c, proof, plen, extra, extralen, g));
     }
     if (nonce2) {
         mn = mx = 0; mlen = mlen_in;
         jo_int(out, "wret", secp256k1_rangeproof_rewind(CTX, blind, &val, VH_RP_MOUT, &mlen, nonce2, &mn, &mx, c, proof, plen, extra, extralen, g));
+        mn = mx = 0; jo_int(out, "wret0", secp256k1_rangeproof_rewind(CTX, NULL, NULL, NULL, NULL, nonce2, &mn, &mx, c, proof, plen, extra, extralen, g));
     }
 }
 /* rangeproof_sign with a buffer of "plen" bytes, twice (determinism); on success the proof is verified, its header decoded,
